@@ -40,7 +40,7 @@ void ezc3d::ParametersNS::GroupNS::Parameter::print() const
     std::cout << "description = " << _description << std::endl;
 }
 
-void ezc3d::ParametersNS::GroupNS::Parameter::write(std::fstream &f, int groupIdx, std::streampos &dataStartPosition) const
+void ezc3d::ParametersNS::GroupNS::Parameter::write(std::fstream &f, int groupIdx, std::streampos &dataStartPosition, bool inPointGroup) const
 {
     int nCharName(static_cast<int>(name().size()));
     if (isLocked())
@@ -88,7 +88,7 @@ void ezc3d::ParametersNS::GroupNS::Parameter::write(std::fstream &f, int groupId
                 writeImbricatedParameter(f, _dimension, 1);
             }
         } else {
-            if (!_name.compare("DATA_START")){
+            if (inPointGroup && !_name.compare("DATA_START")){
                 // This is a special case defined in the standard where you write the number of blocks up to the data
                 dataStartPosition = f.tellg();
                 f.write(reinterpret_cast<const char*>(&blank), 2*ezc3d::DATA_TYPE::BYTE);
